@@ -36,11 +36,14 @@ CLAIMED.update(
             "DESIGN.md §3 C17",
         ),
         "C34": (
-            "ONCE dataflow (consumption counting with materialisation and isinstance refinement) on the CFG + shape rules for index normalisation and order-preserving construction",
+            "ONCE dataflow (consumption counting with materialisation and isinstance refinement) on the CFG + shape rules for index normalisation and order-preserving construction + abstract interpretation of the ordered-set classes over operation x operand-kind against list-computed set semantics",
             "Decides three structural clauses of the ordered-set contract: every Iterable parameter (and every element of *others) of "
             "the ordered-set API is consumed at most once on any path unless materialised or proven re-iterable; __getitem__ normalises "
             "negative indices before the positional comparison; `_items` and derived sets are only built from order-preserving "
-            "constructions and iteration goes over the backing dict. Element equality/hash semantics and full set algebra are not decided.",
+            "constructions and iteration goes over the backing dict; OrderedSet and FrozenOrderedSet, interpreted from source by the checker's evaluator, agree with the insertion-ordered-set "
+            "semantics computed on plain lists for every operation (union, intersection, difference, symmetric difference, their operators and in-place forms, issubset, issuperset, add, "
+            "discard, clear, ==, hash) x operand kind (list with duplicates, tuple, one-shot generator / iterator, builtin set, dict keys, ordered set, the set itself, empty, several "
+            "operands), observed through iteration, len, membership, positive and negative indexing, IndexError and reversed(), with index reads before in-place changes. Hash/eq of exotic elements is not decided.",
             "Trusts the CFG builder and the classification tables of materialising / non-consuming calls in sa/engine/dataflow.py.",
             "DESIGN.md §3 C34",
         ),
